@@ -1,3 +1,4 @@
+import GramModel.Lemmas.ArmsTie
 import GramModel.Lemmas.Listing
 import GramModel.Lemmas.ParserSpan
 
@@ -376,3 +377,14 @@ example : ∃ r st, PModel.runParser C15_exToks2 = some (r, st) ∧
   PModel.runParser_eval C15_exToks2 80
     (fun r => (PModel.collectErrors r.term, r.next, r.term.nodes, r.term.binders)) _
     (by decide +kernel)
+
+/-! ## Type diagnostics point at the subterm whose type did not fit (table regenerated from `type_checker.rs` on every run) -/
+
+/-- Every diagnostic of `type_check_rec` is raised by a failed `unify(&x_type, …)` and carries the source range of that very
+`x` — the domain / codomain of a function type, the applicand / argument of an application, the annotation / definition of
+a definition, the operand of an operator, the condition of a conditional — with the single exception of the comparison
+of the two branches of a conditional, reported at the whole conditional; and every arm reports exactly the sites it is
+known to report, in order.  Together with span exactness (the range of a node is its text) this is "for type errors
+the range is precisely the text of the offending subexpression" at every reporting site of the checker. -/
+def C15_type_error_sites_stmt : Prop := errSitesOK Generated.checkErrSites = true
+theorem C15_type_error_sites : C15_type_error_sites_stmt := by unfold C15_type_error_sites_stmt; decide
